@@ -1,7 +1,6 @@
 package props
 
 import (
-	"time"
 	"encoding/json"
 	"flag"
 	"fmt"
@@ -11,6 +10,7 @@ import (
 	"strings"
 	"sync"
 	"testing"
+	"time"
 
 	rn "github.com/Trisia/randomness"
 	"pgregory.net/rapid"
@@ -225,7 +225,9 @@ var (
 	softDeadline = time.Duration(envInt("VERIF_SOFT_DEADLINE_S", 0)) * time.Second
 )
 
-func softExpired() bool { return softDeadline > 0 && replayIn == "" && time.Since(processStart) > softDeadline }
+func softExpired() bool {
+	return softDeadline > 0 && replayIn == "" && time.Since(processStart) > softDeadline
+}
 
 func judge[C any](id string, c C, check func(C) (Outcome, error), useJournal bool) (skip string, fail error) {
 	if softExpired() {
